@@ -10,6 +10,11 @@ Mechanical behaviour-preserving rewrites of the WHOLE package (negative controls
   pos2kw    f(a, b)                  ->  f(a, k=b)   for parameters of f that have a default
   neq       a != b / a is not b      ->  not a == b / not a is b
   elif      elif chains              ->  nested else: if
+  comp2loop name = [E for t in it]   ->  name = []; for t in it: name.append(E)   (also for a comprehension that is the first argument of a returned call)
+  isinst    isinstance(x, (A, B))    ->  isinstance(x, A) or isinstance(x, B)
+  nestand   if a and b: X            ->  if a: if b: X                    (no else)
+  intuple   x == 'a' or x == 'b'     ->  x in ('a', 'b')
+  typeself  x.__class__              ->  type(x)
   all       every mode above, one after the other"""
 import ast, os, sys, shutil
 
@@ -168,8 +173,108 @@ class Elif(ast.NodeTransformer):
         return n
 
 
+class Comp2Loop(ast.NodeTransformer):
+    """name = [E for t in it]  ->  name = []; for t in it: name.append(E)        (single generator, no condition; the loop variable is
+    renamed so that it cannot clash with a name of the enclosing function)
+    return F([E for t in it], ..)  ->  acc_ = []; for ..: acc_.append(E); return F(acc_, ..)   (the comprehension a direct argument)"""
+    n = 0
+
+    def _loop(self, name, comp):
+        g = comp.generators[0]
+        return [ast.Assign(targets=[ast.Name(id=name, ctx=ast.Store())], value=ast.List(elts=[], ctx=ast.Load())),
+                ast.For(target=g.target, iter=g.iter, body=[ast.Expr(value=ast.Call(func=ast.Attribute(value=ast.Name(id=name, ctx=ast.Load()), attr='append', ctx=ast.Load()),
+                                                                                     args=[comp.elt], keywords=[]))], orelse=[])]
+
+    def _simple(self, c):
+        return isinstance(c, ast.ListComp) and len(c.generators) == 1 and not c.generators[0].ifs and not c.generators[0].is_async
+
+    def _block(self, stmts, fn_names):
+        out = []
+        for st in stmts:
+            if isinstance(st, ast.Assign) and len(st.targets) == 1 and isinstance(st.targets[0], ast.Name) and self._simple(st.value):
+                tn = {x.id for x in ast.walk(st.value.generators[0].target) if isinstance(x, ast.Name)}
+                selfref = any(isinstance(x, ast.Name) and x.id == st.targets[0].id for x in ast.walk(st.value))
+                if not (tn & fn_names) and not selfref:
+                    out.extend(self._loop(st.targets[0].id, st.value))
+                    continue
+            if isinstance(st, ast.Return) and isinstance(st.value, ast.Call) and st.value.args and self._simple(st.value.args[0]):
+                tn = {x.id for x in ast.walk(st.value.args[0].generators[0].target) if isinstance(x, ast.Name)}
+                if not (tn & fn_names):
+                    out.extend(self._loop('acc_', st.value.args[0]))
+                    st.value.args[0] = ast.Name(id='acc_', ctx=ast.Load())
+                    out.append(st)
+                    continue
+            out.append(st)
+        return out
+
+    def visit_FunctionDef(self, fn):
+        # names bound outside comprehensions in this function: a comprehension variable of the same name must stay private
+        outside = set()
+        def walk(n, incomp):
+            if isinstance(n, (ast.ListComp, ast.SetComp, ast.DictComp, ast.GeneratorExp)):
+                incomp = True
+            if isinstance(n, ast.Name) and not incomp:
+                outside.add(n.id)
+            if isinstance(n, ast.arg):
+                outside.add(n.arg)
+            for ch in ast.iter_child_nodes(n):
+                walk(ch, incomp)
+        walk(fn, False)
+        self.generic_visit(fn)
+
+        def rec(node):
+            for fld in ('body', 'orelse', 'finalbody'):
+                v = getattr(node, fld, None)
+                if isinstance(v, list) and v and isinstance(v[0], ast.stmt):
+                    setattr(node, fld, self._block(v, outside))
+                    for ch in getattr(node, fld):
+                        if not isinstance(ch, (ast.FunctionDef, ast.ClassDef)):
+                            rec(ch)
+        rec(fn)
+        return fn
+
+
+class IsInst(ast.NodeTransformer):
+    def visit_Call(self, c):
+        self.generic_visit(c)
+        if isinstance(c.func, ast.Name) and c.func.id == 'isinstance' and len(c.args) == 2 and isinstance(c.args[1], ast.Tuple) and len(c.args[1].elts) >= 2 \
+                and isinstance(c.args[0], ast.Name):
+            return ast.BoolOp(op=ast.Or(), values=[ast.Call(func=ast.Name(id='isinstance', ctx=ast.Load()), args=[c.args[0], e], keywords=[]) for e in c.args[1].elts])
+        return c
+
+
+class NestAnd(ast.NodeTransformer):
+    def visit_If(self, n):
+        self.generic_visit(n)
+        if not n.orelse and isinstance(n.test, ast.BoolOp) and isinstance(n.test.op, ast.And) and len(n.test.values) == 2:
+            a, b = n.test.values
+            return ast.If(test=a, body=[ast.If(test=b, body=n.body, orelse=[])], orelse=[])
+        return n
+
+
+class InTuple(ast.NodeTransformer):
+    def visit_BoolOp(self, n):
+        self.generic_visit(n)
+        if isinstance(n.op, ast.Or) and len(n.values) >= 2 and all(isinstance(v, ast.Compare) and len(v.ops) == 1 and isinstance(v.ops[0], ast.Eq)
+                                                                    and isinstance(v.comparators[0], ast.Constant) for v in n.values):
+            lefts = {ast.dump(v.left) for v in n.values}
+            if len(lefts) == 1 and isinstance(n.values[0].left, (ast.Name, ast.Attribute)):
+                return ast.Compare(left=n.values[0].left, ops=[ast.In()], comparators=[ast.Tuple(elts=[v.comparators[0] for v in n.values], ctx=ast.Load())])
+        return n
+
+
+class TypeSelf(ast.NodeTransformer):
+    def visit_Attribute(self, n):
+        self.generic_visit(n)
+        if n.attr == '__class__' and isinstance(n.ctx, ast.Load) and isinstance(n.value, ast.Name):
+            return ast.Call(func=ast.Name(id='type', ctx=ast.Load()), args=[n.value], keywords=[])
+        return n
+
+
 MODES = {'ifswap': lambda s: IfSwap(), 'early': lambda s: Early(), 'matmul': lambda s: MatMul(), 'transpose': lambda s: Transpose(),
-         'tmp': lambda s: Tmp(), 'kw2pos': lambda s: Kw2Pos(s), 'pos2kw': lambda s: Pos2Kw(s), 'neq': lambda s: Neq(), 'elif': lambda s: Elif()}
+         'tmp': lambda s: Tmp(), 'kw2pos': lambda s: Kw2Pos(s), 'pos2kw': lambda s: Pos2Kw(s), 'neq': lambda s: Neq(), 'elif': lambda s: Elif(),
+         'comp2loop': lambda s: Comp2Loop(), 'isinst': lambda s: IsInst(), 'nestand': lambda s: NestAnd(), 'intuple': lambda s: InTuple(),
+         'typeself': lambda s: TypeSelf()}
 
 if os.path.exists(dst):
     shutil.rmtree(dst)
